@@ -417,7 +417,7 @@ func init() {
 		Assume: []string{"netfilter is the exec-level simulator mc/nfsim; the repository's iptables/ipset runners run on top of it; the per-pod goroutines of syncPods run freely, their only order-dependent residue (order of jump rules in GLX-INGRESS/EGRESS) is canonicalised",
 			"cluster states from a menu: 5 (thorough 7) pod sets x all sets of <=2 policies out of 6 (thorough 12) shapes; prior kernels: empty, foreign chains+sets, stale galaxy objects; same manager or restarted manager"},
 		Rule: "all ordered pairs (before, after) of cluster states: sync `before`, switch the listers to `after`, run one full sync; compare the galaxy-owned kernel state with a fresh sync of `after` on an empty kernel (differential), " +
-			"check foreign objects byte for byte, every command the kernel refused, and that a second sync changes nothing; the event sequences between the two states in every order; a sync with its k-th ipset/iptables command failing (every k) followed by the next sync must converge as well; states = distinct resulting kernel states, transitions = full syncs executed",
+			"check foreign objects byte for byte, every command the kernel refused, and that a second sync changes nothing; the event sequences between the two states in every order, and round trips A -> B -> A on one manager (at most two events each way, every order) compared with a fresh sync of A; a sync with its k-th ipset/iptables command failing (every k) followed by the next sync must converge as well; states = distinct resulting kernel states, transitions = full syncs executed",
 		Jobs: func(tier string) []Job {
 			var jobs []Job
 			for s := 0; s < 16; s++ {
@@ -426,6 +426,7 @@ func init() {
 			for s := 0; s < 8; s++ {
 				jobs = append(jobs, c15EventJob(s, 8, tier))
 				jobs = append(jobs, c15FaultJob(s, 8, tier))
+				jobs = append(jobs, c15RoundTripJob(s, 8, tier))
 			}
 			return jobs
 		}})
